@@ -46,7 +46,7 @@ PROPS = {
     ),
     'C05': dict(
         comps=['order', 'api_order'],
-        theorems=['C05_order', 'C05_observers', 'C05_peeks'],
+        theorems=['C05_order', 'C05_observers', 'C05_peeks', 'C05_touch_pointer', 'C05_remove_pointer', 'C05_insert_pointer', 'C05_realloc_pointer'],
         assumptions=['iteration forward and reversed, keys(), values(), peek_lru/peek_mru and Debug are cross-checked against the pointer walk of the hook after every step (flag api_order)'],
     ),
     'C06': dict(
@@ -93,7 +93,7 @@ PROPS = {
         comps=['res', 'keyset', 'order', 'ents', 'sizes', 'cur', 'max', 'clone_cap', 'clone_fresh', 'drops', 'bsim'],
         ops=['clone'],
         comps_any=['oth'],
-        theorems=['C14_equal', 'C14_fresh', 'C14_inv'],
+        theorems=['C14_equal', 'C14_fresh', 'C14_inv', 'C14_footprint_touch', 'C14_footprint_remove', 'C14_footprint_insert', 'C14_independent'],
         assumptions=['independence is observed as: after every operation on one cache the structural fingerprint (addresses, links, sizes, scalars) of every other live cache is bit-for-bit unchanged (flag oth)'],
     ),
     'C15': dict(
@@ -148,7 +148,7 @@ MANIFEST_TEXT = {
     'C06': dict(text='Theorems C06_step (per-step multiset balance of object tokens: held + introduced = held + dropped + handed back (+ leaked by a forgotten Drain)) and C06_exactly_once (any history from creation to drop: every token exactly once in dropped / returned / leaked, never two of them), C06_no_leak_without_forget. The extracted monitor c06_mon and a never-dropped-twice check run on the implementation at identity level.', note=_A + '; the ptr::read paths of owning iterators are covered at list level here and at pointer level in Layer B', technique=_T),
     'C12': dict(text='Theorems C12_split / C12_fused: for every pattern of next/next_back on every list, fronts ++ rest ++ rev backs = list, None only after exhaustion and then for ever; C12_iter / C12_drain / C12_into_iter tie the operations to that specification (drain leaves an empty, valid cache; owning iterators drop exactly the unconsumed). Item sequences of all seven iterator kinds with random patterns past exhaustion are compared.', note=_A, technique=_T),
     'C13': dict(text='Theorems over the Layer T abstraction of hashbrown capacity accounting, all oracles: C13_reserve, C13_shrink / C13_shrink_to_fit (never raises, keeps >= max(len,min)), C13_try_reserve_fail (state unchanged), C13_transparent, C13_with_capacity_step, C13_auto_growth (growth only when full, new capacity < max(4 x entries, 16)); arithmetic of capacity_to_buckets / bucket_mask_to_capacity proved (c2b_spec). Monitors c13_mon and the history growth bound run on the implementation.', note=_A + '; tombstone behaviour of hashbrown is an oracle (over-approximated)', technique=_T),
-    'C14': dict(text='Theorems C14_equal (same entries, order, recorded sizes, counters; capacity >= source), C14_fresh, C14_inv (the clone satisfies the invariant so all theorems apply to it). Independence is a value-semantics fact of the model; on the implementation it is observed through bit-for-bit fingerprints of all other caches after every operation.', note=_A + '; the shared-heap frame theorem is Layer B', technique=_T),
+    'C14': dict(text='Theorems C14_equal (same entries, order, recorded sizes, counters; capacity >= source), C14_fresh, C14_inv (the clone satisfies the invariant so all theorems apply to it). Independence is a value-semantics fact of the model; on the implementation it is observed through bit-for-bit fingerprints of all other caches after every operation.', note=_A + '; shared-heap frame theorems (Layer B) cover the list-surgery primitives, not whole public operations', technique=_T),
     'C15': dict(text='Theorem C15_retain for all predicates: visits = entries LRU to MRU once each with their own key/value, survivors = filter in order, size and drops re-accounted.', note=_A, technique=_T),
     'C20': dict(text='Theorem C20_bound for every operation, state and oracle: hashes + len after <= 2 + len before + added + (rebuilt ? len : 0), zero for traversals/clear/drain/LRU-MRU peeks/get_lru, rebuild only for reserve/try_reserve/shrink*/growing insertion; C20_clone. The implementation count of Hash::hash calls per API call must be <= the model count and satisfy the extracted bound c20_mon.', note=_A, technique=_T),
     'C18': dict(engine='coq-gen+rustc', text='Tables regenerated from /repo/src on every run by a syn translator (impl bounds, field types, signatures with the origin of every returned lifetime); Coq theorems over the finite generated tables (C18_send/C18_sync: the written bounds are exactly K,V,S; C18_not_auto: a raw pointer blocks the auto impls; C18_borrow: every returned reference/borrowing iterator carries the receiver lifetime); rustc is the oracle: ~290 generated probe programs (full (Send,Sync) witness cube per parameter, misuse/legitimate program per signature row) must be accepted/rejected as the tables predict.', note='rustc is the oracle for trait solving and borrow checking; the translator is syntactic; theorems are over generated finite tables (closed by computation)', technique='generated Coq tables + theorems, validated against rustc accept/reject of generated probe programs', ref='DESIGN.md section 7 (C18), coq/Gen/README.md'),
